@@ -4,7 +4,8 @@ HERE = os.path.dirname(os.path.abspath(__file__)); VERIF = os.path.dirname(HERE)
 spec = importlib.util.spec_from_file_location("props", os.path.join(VERIF, "contracts", "properties.py"))
 mod = importlib.util.module_from_spec(spec); spec.loader.exec_module(mod)
 checks = []
-for pid in sorted(mod.PROPS):
+import re
+for pid in sorted(p for p in mod.PROPS if re.match(r"^C\d+$", p)):
     P = mod.PROPS[pid]
     checks.append(dict(
         property_id=pid,
